@@ -107,3 +107,14 @@ Qed.
 (* C's fmod over the reals: a - b * trunc(a / b) *)
 Definition r_trunc (a : R) : R := if Rle_dec 0 a then r_floor a else - r_floor (- a).
 Definition r_cfmod (a b : R) : R := a - b * r_trunc (a / b).
+
+(* ---------- C16: select / rel laws over the reals ---------- *)
+From GX Require Import Singular.
+Theorem ROps_sel : SelLaws ROps.
+Proof.
+  constructor; unfold oneT, zero; simpl; intros.
+  - unfold r_nz. destruct (Req_EM_T (Q2R 1) 0) as [E|_]; [|reflexivity]. unfold Q2R in E; simpl in E; lra.
+  - unfold r_nz. destruct (Req_EM_T (Q2R 0) 0) as [_|E]; [reflexivity|]. unfold Q2R in E; simpl in E; lra.
+  - unfold r_b. match goal with |- context [if ?c then _ else _] => destruct c end;
+      [left|right]; unfold Q2R; simpl; lra.
+Qed.
